@@ -397,7 +397,7 @@ theorem barWrite_ok50 (env : Env) {u : Rat} (h0 : 0 ≤ u) (h1 : u ≤ 1) : ∃ 
 
 /-- a histogram line: the key column, then the count under the formatter with the CURRENT maximum -/
 def Histo.lineHead (env : Env) (h : Histo) (key : Bytes) (val : Int) : Bytes :=
-  wrap env cYellow (padRight key h.textSpacing) ++ ascii "    " ++ padRight (h.fmt.apply val 0 h.maxVal) 10
+  wrap env cYellow (padVis env key h.textSpacing) ++ ascii "    " ++ padRight (h.fmt.apply val 0 h.maxVal) 10
 
 /-- `HistoWriter.writeLine` never panics, and the line it writes starts with the key and `Formatter(val, 0, maxVal)` -/
 theorem histo_writeLine_ok (h2 : LogLike L2) (h10 : LogLike L10) (env : Env) (h : Histo) (vt : VirtualTerm) (ho : vt.closed = false)
@@ -413,8 +413,8 @@ theorem histo_writeLine_ok (h2 : LogLike L2) (h10 : LogLike L10) (env : Env) (h 
     simp only [hbar, bind, Except.bind]
     obtain ⟨vt', hw, ho', hl, hk⟩ := vt_write_ok vt ho line
       ((if h.showPct = true ∧ h.total > 0 then
-          wrap env cYellow (padRight key h.textSpacing) ++ ascii "    " ++ padRight (h.fmt.apply val 0 h.maxVal) 10 ++ [32] ++ wrap env cCyan pctText
-        else wrap env cYellow (padRight key h.textSpacing) ++ ascii "    " ++ padRight (h.fmt.apply val 0 h.maxVal) 10) ++ [32] ++ colorWrite env cBlue bar)
+          wrap env cYellow (padVis env key h.textSpacing) ++ ascii "    " ++ padRight (h.fmt.apply val 0 h.maxVal) 10 ++ [32] ++ wrap env cCyan pctText
+        else wrap env cYellow (padVis env key h.textSpacing) ++ ascii "    " ++ padRight (h.fmt.apply val 0 h.maxVal) 10) ++ [32] ++ colorWrite env cBlue bar)
     refine ⟨vt', (if h.showPct = true ∧ h.total > 0 then [32] ++ wrap env cCyan pctText else []) ++ [32] ++ colorWrite env cBlue bar,
       hw, ho', ?_, hk⟩
     rw [hl]
@@ -422,8 +422,8 @@ theorem histo_writeLine_ok (h2 : LogLike L2) (h10 : LogLike L10) (env : Env) (h 
     split <;> simp [List.append_assoc]
   · obtain ⟨vt', hw, ho', hl, hk⟩ := vt_write_ok vt ho line
       (if h.showPct = true ∧ h.total > 0 then
-          wrap env cYellow (padRight key h.textSpacing) ++ ascii "    " ++ padRight (h.fmt.apply val 0 h.maxVal) 10 ++ [32] ++ wrap env cCyan pctText
-        else wrap env cYellow (padRight key h.textSpacing) ++ ascii "    " ++ padRight (h.fmt.apply val 0 h.maxVal) 10)
+          wrap env cYellow (padVis env key h.textSpacing) ++ ascii "    " ++ padRight (h.fmt.apply val 0 h.maxVal) 10 ++ [32] ++ wrap env cCyan pctText
+        else wrap env cYellow (padVis env key h.textSpacing) ++ ascii "    " ++ padRight (h.fmt.apply val 0 h.maxVal) 10)
     refine ⟨vt', (if h.showPct = true ∧ h.total > 0 then [32] ++ wrap env cCyan pctText else []), hw, ho', ?_, hk⟩
     rw [hl]
     unfold Histo.lineHead
@@ -447,14 +447,14 @@ theorem bars_stacked_line (env : Env) (g : BarGraph) (vt : VirtualTerm) (ho : vt
   have hwrap : wrap64 ((idx : Int) + g1.prefixLines) = ((idx + g.prefixLines.toNat : Nat) : Int) := by
     rw [hg1p, wrap64_small (by omega) (by omega)]; omega
   obtain ⟨vt', hw, ho', hl, _⟩ := vt_write_ok vt ho (idx + g.prefixLines.toNat)
-    (wrap env cYellow (padRight key g1.maxKeyLength) ++ ascii "  " ++ bar ++ ascii "  " ++ g1.fmt.apply (sumWrap vals) 0 g1.maxLineVal)
+    (wrap env cYellow (padVis env key g1.maxKeyLength) ++ ascii "  " ++ bar ++ ascii "  " ++ g1.fmt.apply (sumWrap vals) 0 g1.maxLineVal)
   generalize hg2 : (if wrap64 ((idx : Int) + g1.prefixLines) + 1 > g1.maxRows then { g1 with maxRows := wrap64 ((idx : Int) + g1.prefixLines) + 1 } else g1) = g2
   have hg2m : g2.maxLineVal = g1.maxLineVal := by rw [← hg2]; split <;> rfl
   have hg2f : g2.fmt = g1.fmt := by rw [← hg2]; split <;> rfl
   have hg2k : g2.maxKeyLength = g1.maxKeyLength := by rw [← hg2]; split <;> rfl
   have hg2b : g2.barSize = g1.barSize := by rw [← hg2]; split <;> rfl
-  refine ⟨g2, vt', wrap env cYellow (padRight key g1.maxKeyLength) ++ ascii "  " ++ bar, ?_, ho', by rw [hg2m, hg1m], ?_⟩
-  · simp only [hg2m, hg2f, hg2k, hg2b, hbar, bind, Except.bind, hwrap, hw]
+  refine ⟨g2, vt', wrap env cYellow (padVis env key g1.maxKeyLength) ++ ascii "  " ++ bar, ?_, ho', by rw [hg2m, hg1m], ?_⟩
+  · simp only [hg2m, hg2f, hg2b, hbar, bind, Except.bind, hwrap, hw]
     rfl
   · rw [hl, hg2m, hg2f]
 
